@@ -34,6 +34,9 @@ ASSUMPTIONS = [
     'Psi4_lm is not requested (needs an extraction sphere inside the grid)']
 
 
+warmup = cc.warmup
+
+
 def generate(rng, tier):
     return cc.generate(rng, tier, 'C01')
 
